@@ -42,6 +42,15 @@ def materials_():
             return 0.85
 
     _cls.update({"A": C12MatA, "B": C12MatB, "F": C12Fluid})
+    # resolvable by name (a database load re-creates components from the material's name)
+    for k in (C12MatA, C12MatB, C12Fluid):
+        k.__module__ = __name__
+        k.__qualname__ = k.__name__
+        globals()[k.__name__] = k
+    from armi import materials
+
+    if __name__ not in materials._MATERIAL_NAMESPACE_ORDER:
+        materials.setMaterialNamespaceOrder([__name__] + list(materials._MATERIAL_NAMESPACE_ORDER))
     return _cls
 
 
@@ -105,7 +114,7 @@ def build_assembly(A, CT, BT):
     a = HexAssembly("c12Assembly")
     a.spatialGrid = grids.AxialGrid.fromNCells(numCells=1)
     a.spatialGrid.armiObject = a
-    for t, hgt in zip(A["types"], A["hs"]):
+    for t, hgt in zip(A.get("types0", A["types"]), A["hs"]):  # types0 = as built (blocks may be replaced later in a history)
         a.add(make_block(t, BT[t], CT, hgt, A.get("hot", 0)))
     if A.get("top"):
         a.add(make_block(A["top"], BT[A["top"]], CT, A["hd"], A.get("hot", 0)))  # an ordinary block on top (not flagged DUMMY)
@@ -125,3 +134,40 @@ def temp_grid(ng):
 
 def temp_field(levels):
     return [T0 + DT * lv for lv in levels]
+
+
+_rule_cls = {}
+
+
+def changer_class(rule):
+    """AxialExpansionChanger whose linkage is decided by `rule`.  "default" is armi's class itself; any other rule is
+    installed the documented way: a subclass of AssemblyAxialLinkage overriding the areAxiallyLinked hook."""
+    armi_ready()
+    from armi.reactor.converters.axialExpansionChanger import AxialExpansionChanger
+    from armi.reactor.converters.axialExpansionChanger.assemblyAxialLinkage import AssemblyAxialLinkage, areAxiallyLinked
+    from armi.reactor.converters.axialExpansionChanger.expansionData import ExpansionData
+    from armi.reactor.flags import Flags
+
+    if rule == "default":
+        return AxialExpansionChanger, AssemblyAxialLinkage
+    if rule not in _rule_cls:
+        if rule != "freeclad":
+            raise ValueError("unknown link rule " + rule)
+
+        class FreeCladLinkage(AssemblyAxialLinkage):
+            """cladding tubes are never linked to anything; everything else follows the default rule"""
+
+            @staticmethod
+            def areAxiallyLinked(componentA, componentB):
+                if componentA.hasFlags(Flags.CLAD) or componentB.hasFlags(Flags.CLAD):
+                    return False
+                return areAxiallyLinked(componentA, componentB)
+
+        class FreeCladChanger(AxialExpansionChanger):
+            def setAssembly(self, a, setFuel=True, expandFromTinputToThot=False):
+                self.linked = FreeCladLinkage(a)
+                self.expansionData = ExpansionData(a, setFuel=setFuel, expandFromTinputToThot=expandFromTinputToThot)
+                self._isTopDummyBlockPresent()
+
+        _rule_cls[rule] = (FreeCladChanger, FreeCladLinkage)
+    return _rule_cls[rule]
